@@ -125,6 +125,7 @@ for _p in HOSTILE:
     ast.parse(_p)
 PROGS = COMMENTED + [PROGRAMS[i] for i in (11, 20, 21, 22, 23, 24, 25, 26, 27, 28, 37, 38)] + HOSTILE
 LC_PROGS = list(range(len(COMMENTED))) + list(range(len(PROGS) - len(HOSTILE), len(PROGS)))
+PROGS = PROGS + [PROGRAMS[i].replace(': pass', ':\n    pass') if i == 56 else PROGRAMS[i] for i in (56, 57, 58, 59)]  # later shared programs go to the end (positional case ids); bodies on their own lines (the line oracle does not split a header line)
 
 OPTS = [{}, {'trivia': False}, {'trivia': 'all'}, {'trivia': ('all', 'all')}, {'trivia': 'block+1'}, {'trivia': ('none', 'none')},
         {'pep8space': False}, {'elif_': False}, {'docstr': False}]
@@ -606,6 +607,12 @@ def check_transition(src, new, op, res, cid, rep, params):
             ok = len(got) == len(o) + len(c) and any(got == o[:q] + c + o[q:] for q in range(len(o) + 1))
             want = o + ['<+>'] + c
         res.outcomes['tokens-judged'] += 1
+        if not ok and op.get('field') in ('args', 'keywords', 'bases') and exp[0] == 'exact' and sorted(got) == sorted(exp[1]) and \
+                isinstance(O.get_path(tree, tuple(tuple(x) for x in op['path'])), (ast.Call, ast.ClassDef)):
+            # positional and keyword arguments are two lists that share one source sequence: an element added at the end of one list
+            # may stand anywhere behind its list predecessor (pfst puts it behind a starred element of the other list that follows)
+            res.outcomes['position-among-the-other-field-not-judged'] += 1
+            ok = True
         if not ok:
             pth = tuple(tuple(x) for x in op['path'])
             if op['op'] in ('remove', 'cut') and pth:
@@ -661,6 +668,8 @@ def check_transition(src, new, op, res, cid, rep, params):
                 really.append(i)
         if really:
             params = dict(params, **classify_loss(src, tree, op, []))
+            if all(old_l[i] != old_l[i].rstrip() and old_l[i].rstrip() in new_mid for i in really):
+                params['only_trailing_blanks_of_neighbour_line_removed'] = True  # input side: the line in front of the insertion ends in blanks
             res.fail(cid, 'line-outside-edited-element-changed',
                      f'pre={src!r}\nnew={new!r}\nrequest={E.op_id(op)}\nchanged old lines outside the allowed region: '
                      + '; '.join(f'{i}:{old_l[i]!r}' for i in really[:4]), params, rep, E.render(rep['src'], rep['hist']))
